@@ -103,20 +103,20 @@ class LiveSet:
             self._live_ops.add(op)
 
     def propagate_op_liveness(self, op: Operation):
+        if not self.is_live(op):
+            if would_be_trivially_dead(op) and not any(
+                self.is_live(use.operation)
+                for result in op.results
+                for use in result.uses
+            ):
+                return
+            self.set_live(op)
+
+        # The regions of a dead operation are deleted with it: what they contain must
+        # not keep anything alive, so liveness is only propagated out of the regions
+        # of live operations.
         for region in op.regions:
             self.propagate_region_liveness(region)
-
-        if self.is_live(op):
-            return
-
-        if not would_be_trivially_dead(op):
-            self.set_live(op)
-            return
-
-        if any(
-            self.is_live(use.operation) for result in op.results for use in result.uses
-        ):
-            self.set_live(op)
 
     def propagate_region_liveness(self, region: Region):
         first = region.first_block
